@@ -277,3 +277,19 @@ Print Assumptions C11_elab_self_silent.
 Theorem C11_alias_target_fuel_irrelevant : forall r i f, List.length (rnodes r) < f -> chase r f [] i = outcome r i.
 Proof. exact outcome_fuel_irrelevant. Qed.
 Print Assumptions C11_alias_target_fuel_irrelevant.
+
+(* no Visit hypothesis left: a public class of the root module is compared with its namesake, and for every name whose view on it
+   is public, every local incompatibility between the definitions CPython's lookup provides -- at any depth of the hierarchy, in
+   public or private base classes -- is reported *)
+Theorem C11_root_class_inherited_change_reported : forall ro rn ri rj fuel s l,
+  fbc (elab ro) (elab rn) fuel ri rj = Ok s l ->
+  forall rmo rmn e im ms e' im' ms' cname c c' cn cn' n o o' on on' b,
+  rget ro ri = Some rmo -> rbody_of rmo = RModule e im ms -> rget rn rj = Some rmn -> rbody_of rmn = RModule e' im' ms' ->
+  lookup cname ms = Some c -> lookup cname ms' = Some c' -> rclass_of ro c cn -> rclass_of rn c' cn' ->
+  is_public (elab_node ro (inhs ro) ri rmo) (elab_node ro (inhs ro) c cn) = true ->
+  provider ro c n = Some o -> provider rn c' n = Some o' ->
+  rget ro o = Some on -> r_is_alias on = false -> rget rn o' = Some on' -> r_is_alias on' = false ->
+  (forall j mo, view ro c cn n = Some j -> get (elab ro) j = Some mo -> is_public (elab_node ro (inhs ro) c cn) mo = true) ->
+  In b (local (elab ro) (elab rn) (EHead o o')) -> In b (breakages (elab ro) (elab rn) l).
+Proof. exact root_class_change_reported. Qed.
+Print Assumptions C11_root_class_inherited_change_reported.
